@@ -367,6 +367,133 @@ template<class T, class RT, class OT>
     }
 }
 
+// ---- conversions into T and arithmetic with built-in operands -------------------------------------------
+// sources: every int in [-K,K] (explicit construction and assignment), doubles k/16, plain scaled_integer<int,
+// power<E-3>> reps (three more fractional digits than T), and for every register value a: a op k, k op a for
+// built-in k (exact in the grown result type; '/' rounded by the mode at the result type's resolution), a <=> k.
+template<class T, class RT, class OT>
+[[gnu::noinline]] void prog_convert(const char* tn)
+{
+    using rep = typename cv::scale_of<T>::rep;
+    constexpr int RM = rmode<RT>::m;
+    constexpr int OM = omode<OT>::m;
+    constexpr int E = exp_of<T>;
+    std::string pname = std::string("convert<") + tn + "," + rmode<RT>::n + "," + omode<OT>::n + ">";
+    if (!vf::begin(pname, true)) return;
+    Rat const unit = Rat::scaled(Big(1), 2, E);
+    Big const maxrep = cv::max_of<rep>();
+    long const K = 4 * maxrep.low128() + 40;
+    auto in_band = [&](Rat const& exact) {
+        // source beyond the extreme values of T although its rounding is inside: left open (the overflow test sees the source)
+        return exact.abs() > Rat(maxrep) * unit;
+    };
+    for (long k = -K; k <= K; ++k) {
+        if (!vf::my_row()) continue;
+        vf::counted(true);
+        // (a) built-in int
+        {
+            auto id = [&] { return "int:" + std::to_string(k); };
+            if (!(vf::replaying() && !vf::case_selected(id()))) {
+                Rat exact{Big(k)};
+                Big want_rep;
+                int expect = narrow_expect<T, RM>(exact, want_rep);
+                std::string lab = E > 0 ? "/precision_losing/from_int" : "/same_resolution/from_int";
+                if (!(expect == N_VALUE && in_band(exact))) {
+                    check_narrow<T, OM>("construct", expect, want_rep, id(), lab, [&] { return T(int(k)); });
+                    check_narrow<T, OM>("assign", expect, want_rep, id(), lab, [&] { T x = make<T>(Big(0)); x = int(k); return x; });
+                } else
+                    vf::skip_pre();
+            }
+        }
+        // (b) double k/16
+        {
+            auto id = [&] { return "f64:" + std::to_string(k) + "/16"; };
+            if (!(vf::replaying() && !vf::case_selected(id()))) {
+                double x = double(k) / 16.0;
+                Rat exact = Rat(Big(k), Big(16));
+                Big want_rep;
+                int expect = narrow_expect<T, RM>(exact, want_rep);
+                if (!(expect == N_VALUE && in_band(exact))) {
+                    check_narrow<T, OM>("construct", expect, want_rep, id(), "/precision_losing/from_double", [&] { return T(x); });
+                    check_narrow<T, OM>("assign", expect, want_rep, id(), "/precision_losing/from_double", [&] { T y = make<T>(Big(0)); y = x; return y; });
+                } else
+                    vf::skip_pre();
+            }
+        }
+        // (c) plain scaled_integer with three more fractional digits (static_number destinations: static_integer has no
+        // constructor from a fractional scaled_integer under nearest_rounding_tag — not a program)
+        if constexpr (cv::scale_of<T>::scaled) {
+            using P = scaled_integer<int, power<E - 3>>;
+            auto id = [&] { return "scaled<int," + std::to_string(E - 3) + ">:" + std::to_string(k); };
+            if (!(vf::replaying() && !vf::case_selected(id()))) {
+                P s = cnl::_impl::from_rep<P>(int(k));
+                Rat exact = Rat::scaled(Big(k), 2, E - 3);
+                Big want_rep;
+                int expect = narrow_expect<T, RM>(exact, want_rep);
+                if (!(expect == N_VALUE && in_band(exact))) check_narrow<T, OM>("construct", expect, want_rep, id(), "/precision_losing/from_plain_scaled", [&] { return T(s); });
+                else
+                    vf::skip_pre();
+            }
+        }
+    }
+    // (d) built-in operands
+    auto const space = cv::space<rep>(16, 1);
+    for (auto const& ra : space) {
+        if (!vf::my_row()) continue;
+        T a = make<T>(ra);
+        Rat va = Rat(ra) * unit;
+        for (int k : {-7, -3, -1, 0, 1, 2, 5, 100}) {
+            auto id = [&] { return ra.str() + " op " + std::to_string(k); };
+            if (vf::replaying() && !vf::case_selected(id())) continue;
+            Rat vk{Big(k)};
+            auto exact_op = [&](const char* op, Rat const& want, auto&& f) {
+                using TR = decltype(f());
+                Rat got;
+                vf::Outcome o = vf::run([&] { got = val(f()); });
+                vf::validated();
+                bool fits = want <= limits_of<TR>::hi() && want >= limits_of<TR>::lo();
+                bool signalled = (o.kind == vf::THROW_OVERFLOW && OM == 1) || (o.kind == vf::ABORT_HOOK && OM >= 2 && (o.msg == "positive overflow" || o.msg == "negative overflow"));
+                if (!o.ok()) {
+                    if (signalled) vf::outcome(fits ? "builtin_signal_although_result_fits" : "ok_builtin_signal");
+                    else
+                        vf::violation(std::string("builtin/") + op + "/" + o.str(), id(), id() + " " + op + ": " + o.str() + ", expected " + want.str());
+                } else if (got != want)
+                    vf::violation(std::string("builtin/") + op + "/value/" + (fits ? "result_fits" : "result_exceeds_type"), id(), id() + " " + op + ": got " + got.str() + ", expected " + want.str());
+                else
+                    vf::outcome(std::string("ok_builtin_") + op);
+            };
+            exact_op("a+k", va + vk, [&] { return a + k; });
+            exact_op("k+a", vk + va, [&] { return k + a; });
+            exact_op("a-k", va - vk, [&] { return a - k; });
+            exact_op("k-a", vk - va, [&] { return k - a; });
+            exact_op("a*k", va * vk, [&] { return a * k; });
+            exact_op("k*a", vk * va, [&] { return k * a; });
+            if (k != 0) {
+                using TQ = decltype(a / k);
+                Rat uq = Rat::scaled(Big(1), 2, exp_of<TQ>);
+                exact_op("a/k", Rat(round_mode((va / vk) / uq, RM)) * uq, [&] { return a / k; });
+            }
+            if (!ra.is_zero()) {
+                using TQ = decltype(k / a);
+                Rat uq = Rat::scaled(Big(1), 2, exp_of<TQ>);
+                exact_op("k/a", Rat(round_mode((vk / va) / uq, RM)) * uq, [&] { return k / a; });
+            }
+            int c = va < vk ? -1 : (va == vk ? 0 : 1);
+            bool lt = false, eq = false, gt = false, rlt = false;
+            vf::Outcome o = vf::run([&] {
+                lt = a < k;
+                eq = a == k;
+                gt = a > k;
+                rlt = k < a;
+            });
+            vf::validated(4);
+            if (!o.ok() || lt != (c < 0) || eq != (c == 0) || gt != (c > 0) || rlt != (c > 0)) vf::violation(std::string("builtin/compare/") + (o.ok() ? "value" : o.str()), id(), id() + ": comparisons with the built-in disagree with the values");
+            else
+                vf::outcome("ok_builtin_compare");
+        }
+    }
+}
+
 // ---- register machine ------------------------------------------------------------------------
 template<class T, class RT, class OT>
 [[gnu::noinline]] void prog_machine(const char* tn)
